@@ -1,6 +1,61 @@
 import DriverOps.Common
-/- driver ops with prefix "rd." (owned by the Reader model) -/
+/- driver ops with prefix "rd." (owned by the Reader model)
+
+  "rd.header"   {"text", "ignore": bool, "case": "upper"|"lower"|"preserve"}
+      → {"ok": {"sections": [[key, items | text] …], "steer": [vers, wrap, null, dlm] (raw text or null),
+                "data": [[first, last, title] …]}}
+      | {"err": ["HeaderError", lineNo]} | {"err": ["NoSections"|"KeyError"|"LASF"|"IndexError"|"AttributeError"]}
+      | "unmodelled"                      items are [orig, unit, rawvalue, descr]
+  "rd.sections" {"text"} → [[first, last, title, kind] …]     (find_sections_in_file + determine_section_type)
+  "rd.lines"    {"text"} → [line …]
+-/
 open Lean Lasio
 
-def handleReader (op : String) (j : Json) : Except String Json :=
-  throw s!"op {op} not implemented"
+def rdItem (it : Rd.RItem) : Json := Json.arr #[jstr it.orig, jstr it.unit, jstr it.value, jstr it.descr]
+
+def rdSecVal : Rd.SecVal → Json
+  | .items l => jlist rdItem l
+  | .text s => jstr s
+
+def rdOpt (o : Option Str) : Json := match o with | some s => jstr s | none => Json.null
+
+def rdWin (w : Nat × Nat × Str) : Json := Json.arr #[jnat w.1, jnat w.2.1, jstr w.2.2]
+
+def rdKind : Rd.SecKind → Json
+  | .items => "items" | .other => "other" | .data => "data" | .las3data => "las3data"
+
+def rdErr : Rd.RErr → Json
+  | .headerError n => Json.mkObj [("err", Json.arr #["HeaderError", jnat n])]
+  | .noSections => Json.mkObj [("err", Json.arr #["NoSections"])]
+  | .keyError => Json.mkObj [("err", Json.arr #["KeyError"])]
+  | .lasf => Json.mkObj [("err", Json.arr #["LASF"])]
+  | .indexError => Json.mkObj [("err", Json.arr #["IndexError"])]
+  | .attributeError => Json.mkObj [("err", Json.arr #["AttributeError"])]
+  | .unmodelled => Json.str "unmodelled"
+
+def rdCase (s : String) : Except String Rd.MCase :=
+  match s with
+  | "upper" => pure .upper | "lower" => pure .lower | "preserve" => pure .preserve
+  | _ => throw s!"bad mnemonic case {s}"
+
+def handleReader (op : String) (j : Json) : Except String Json := do
+  match op with
+  | "rd.header" =>
+    let text ← fldS j "text"
+    let ign ← (← fld j "ignore").getBool?
+    let c ← rdCase (← (← fld j "case").getStr?)
+    match Rd.readHeader ⟨ign, c⟩ text with
+    | .error e => pure (rdErr e)
+    | .ok h =>
+      pure (Json.mkObj [("ok", Json.mkObj [
+        ("sections", jlist (fun kv => Json.arr #[jstr kv.1, rdSecVal kv.2]) h.sections),
+        ("steer", Json.arr #[rdOpt h.steer.vers, rdOpt h.steer.wrap, rdOpt h.steer.null, rdOpt h.steer.dlm]),
+        ("data", jlist rdWin h.data)])])
+  | "rd.sections" =>
+    let text ← fldS j "text"
+    pure (jlist (fun w => Json.arr #[jnat w.1, jnat w.2.1, jstr w.2.2, rdKind (Rd.sectionType w.2.2)])
+      (Rd.findSections (Rd.splitLines text)))
+  | "rd.lines" =>
+    let text ← fldS j "text"
+    pure (jlist jstr (Rd.splitLines text))
+  | _ => throw s!"op {op} not implemented"
